@@ -50,16 +50,22 @@ func (w *racWorld) applyAll(res *racResult, h racHistory, k int, checkRoots bool
 	// --- Pollard.Modify
 	{
 		sn := snap([][]Hash{bd.delHashes, bd.proof.Proof}, [][]uint64{bd.proof.Targets})
-		lv := cloneLeaves(bd.leaves)
+		// the pointer forest is full, so the Remember flags the caller sets are irrelevant to it; alternate them so
+		// that a write to either value of the flag in the caller's slice is visible
+		pl := make([]Leaf, len(bd.leaves))
+		for j, l := range bd.leaves {
+			pl[j] = Leaf{Hash: l.Hash, Remember: (w.spec.n+uint64(j))%2 == 0}
+		}
+		lv := cloneLeaves(pl)
 		var merr error
-		p := safely(func() { merr = w.pol.Modify(bd.leaves, bd.delHashes, bd.proof) })
+		p := safely(func() { merr = w.pol.Modify(pl, bd.delHashes, bd.proof) })
 		res.eval("Pollard.Modify.rac.accepts")
 		if p != "" || merr != nil {
 			res.fail("Pollard.Modify.rac.accepts", in, fmt.Sprintf("panic=%q err=%v", p, merr), "block applied")
 			ok = false
 		}
 		res.eval("C17.preserves.Pollard.Modify")
-		if !sn.unchanged() || fmt.Sprint(lv) != fmt.Sprint(bd.leaves) {
+		if !sn.unchanged() || fmt.Sprint(lv) != fmt.Sprint(pl) {
 			res.fail("C17.preserves.Pollard.Modify", in, "argument slices modified", "unchanged")
 		}
 	}
@@ -84,6 +90,7 @@ func (w *racWorld) applyAll(res *racResult, h racHistory, k int, checkRoots bool
 				}
 			}
 		}
+		mlv := cloneLeaves(leaves)
 		p := safely(func() { merr = m.Modify(leaves, bd.delHashes, bd.proof) })
 		cl := "MapPollard.Modify.rac.accepts"
 		res.eval(cl)
@@ -92,7 +99,7 @@ func (w *racWorld) applyAll(res *racResult, h racHistory, k int, checkRoots bool
 			ok = false
 		}
 		res.eval("C17.preserves.MapPollard.Modify")
-		if !sn.unchanged() {
+		if !sn.unchanged() || fmt.Sprint(mlv) != fmt.Sprint(leaves) {
 			res.fail("C17.preserves.MapPollard.Modify", in, "argument slices modified", "unchanged")
 		}
 	}
@@ -161,7 +168,19 @@ func TestRAC_C01(t *testing.T) {
 			res.sample(map[string]interface{}{"random_history": h.String(), "leaves": w.spec.n})
 		}
 	}
-	res.Rule = fmt.Sprintf("every block history from the empty accumulator with <= %d leaves ever added and <= %d blocks (every deletion subset, every addition count; each prefix is a history), plus %d seeded random histories of 4..15 blocks; implementations: Stump, Pollard, MapPollard %v; oracle: specForest (roots by explicit recursion over insertion slots). distinct = distinct abstract states (leaf count, live set) reached", maxLeaves, maxBlocks, nr, cfgs)
+	// scale: one tree of 2^17 leaves (17 rows), deletions in both halves of it and next to the row boundaries, then
+	// additions and further deletions - code that keeps path bits or row counters in 16 bits shows only here
+	{
+		big := racHistory{
+			{Adds: 1 << 17},
+			{Dels: []uint64{0, 1, 65535, 65536, 65537, 98304, 100000, 131071}, Adds: 3},
+			{Dels: []uint64{2, 70000, 131070, 131072}, Adds: 1},
+		}
+		w, _ := replayHistory(res, big, []mapCfg{{Full: true, TotalRows: 0}, {Full: false, TotalRows: 63}}, true)
+		res.seen(fmt.Sprintf("scale n=%d", w.spec.n))
+		res.sample(map[string]interface{}{"scale_history": "+131072; del 0,1,65535,65536,65537,98304,100000,131071 +3; del 2,70000,131070,131072 +1", "leaves": w.spec.n})
+	}
+	res.Rule = fmt.Sprintf("every block history from the empty accumulator with <= %d leaves ever added and <= %d blocks (every deletion subset, every addition count; each prefix is a history), plus %d seeded random histories of 4..15 blocks, plus one scale history (a single tree of 2^17 leaves, deletions in both halves, two further blocks; Stump, Pollard, one full and one light MapPollard); implementations: Stump, Pollard, MapPollard %v; oracle: specForest (roots by explicit recursion over insertion slots). distinct = distinct abstract states (leaf count, live set) reached", maxLeaves, maxBlocks, nr, cfgs)
 	res.Scope = fmt.Sprintf("histories=%d", n)
 	res.write(t)
 }
